@@ -7,7 +7,7 @@ sys.path.insert(0, os.path.dirname(os.path.dirname(os.path.abspath(__file__))))
 import sylt_gen as G  # noqa: E402
 import vlib  # noqa: E402
 
-GEN = ["GenTokens", "GenPrec"]
+GEN = ["GenTokens", "GenPrec", "GenSrcDigest"]
 TRUSTED = [
     "Coq 8.16.1 kernel (coqc); vm_compute for C13_table_ok / C13_tokens_known / the examples; no axioms "
     "(Print Assumptions: Closed under the global context)",
